@@ -54,6 +54,18 @@ fn mixed(rng: &mut Rng, out: &mut Out, t: usize, k: usize, u: usize) {
         Some(c) => c.wrapping_add(1),
         None => u64::MAX,
     };
+    // files that already exist under names the run is about to hand out (left behind by an earlier process with the
+    // same id, or put there by the application): the names must be handed out all the same, each once
+    let mut leftovers: Vec<PathBuf> = Vec::new();
+    for j in 0..12u64 {
+        let c = start + 1 + j * (((t * k) as u64) / 13 + 1) + rng.below(3);
+        let part = &parts[(j as usize) % t];
+        let p = tmp.join(format!("{}_{}_{}", part, pid, c));
+        if std::fs::write(&p, b"leftover").is_ok() {
+            leftovers.push(p);
+        }
+    }
+    out.stat_n("mixed.leftover_files", leftovers.len() as u64);
     let barrier = Arc::new(Barrier::new(t + u));
     let stop = Arc::new(std::sync::atomic::AtomicBool::new(false));
     let mut handles = Vec::new();
@@ -92,6 +104,9 @@ fn mixed(rng: &mut Rng, out: &mut Out, t: usize, k: usize, u: usize) {
     let per_thread: Vec<Vec<PathBuf>> = handles.into_iter().map(|h| h.join().unwrap()).collect();
     stop.store(true, std::sync::atomic::Ordering::SeqCst);
     let ntest: u64 = others.into_iter().map(|h| h.join().unwrap()).sum();
+    for p in leftovers.iter() {
+        let _ = std::fs::remove_file(p);
+    }
     let mut counts: Vec<u64> = Vec::with_capacity(t * k);
     let (mut in_tmp, mut has_part, mut parsed, mut distinct) = (true, true, true, true);
     let mut set: HashSet<PathBuf> = HashSet::with_capacity(t * k);
